@@ -4,7 +4,7 @@ package tcp
 
 // Contracts for the verification machinery in /verif (comment-only; see /verif/DESIGN.md).
 
-//@ property C17 C01 C02
+//@ property C17 C01 C02 C04 C09 C14
 // tcpTransport adds nothing to the byte path: all I/O methods are the wrapper's own.
 //@ promoted tcpTransport via Transport: Read Write Writev Flush Close
 
